@@ -15,9 +15,15 @@ func Verif_C10_slow_batch() {
 	tick := 0
 	gate := make(chan struct{})
 	tk := &verifTicker{c: make(chan time.Time)}
+	// the first task's callback is slow - or it panics: a faulty callback is its own task's
+	// business, the other tasks due in the same tick still fire
+	aPanics := verifBool("firstCallbackPanics")
 	w, err := newTimingWheelWithClock(I, n, func(k, v any) {
 		fired = append(fired, verifFire{k, v, tick})
 		if k == "a" {
+			if aPanics {
+				panic("callback of task a panics")
+			}
 			<-gate // the first task's callback is slow
 		}
 	}, tk)
@@ -58,7 +64,11 @@ func Verif_C10_slow_batch() {
 		}
 	}
 	verifAssert(len(fired) == 4 && cnt["a"] == 1 && cnt["b"] == 1 && cnt["c"] == 1 && cnt["d"] == 1, "slow batch: every task fires exactly once, also when an earlier tick's callback is still running while a later tick fires")
-	verifReach("slow-batch")
+	if aPanics {
+		verifReach("panicking-callback")
+	} else {
+		verifReach("slow-batch")
+	}
 	w.Stop()
 	verifYield()
 }
